@@ -36,13 +36,15 @@ def case_log_factor(kind, R, Rf, D):
     return Case(label, fn)
 
 
-def case_log_cond(cls, Rc, Rq, Dy, Dx):
-    label = f"log_cond/{cls}/Rc{Rc}/Rq{Rq}/Dy{Dy}Dx{Dx}"
+def case_log_cond(cls, Rc, Rq, Dy, Dx, hist=False):
+    label = f"log_cond/{cls}/Rc{Rc}/Rq{Rq}/Dy{Dy}Dx{Dx}" + ("/hist" if hist else "")
     def fn(m):
         rng = gen.rng_path(m.seed, label)
         fails = []
         c = mk_cond(m, rng, cls, Rc, Dy, Dx)
         q = mk_pdf(m, rng, Rq, Dy + Dx)       # ANY Gaussian over (y, x), y first
+        if hist:                               # both operands were used once and then changed in place
+            m.log_cond(c.reg, q.reg); mutate_cond(m, rng, c); mutate_pdf(m, rng, q)
         params = dict(cls=cls, Rc=Rc, Rq=Rq, Dy=Dy, Dx=Dx)
         r_ = m.log_cond(c.reg, q.reg)
         if m.regs.get(r_) is None:
@@ -62,14 +64,16 @@ def case_log_cond(cls, Rc, Rq, Dy, Dx):
     return Case(label, fn)
 
 
-def case_log_cond_y(cls, Rp, N, Dy, Dx, callable_form):
-    label = f"log_cond_y/{cls}/Rp{Rp}/N{N}/Dy{Dy}Dx{Dx}/call{int(callable_form)}"
+def case_log_cond_y(cls, Rp, N, Dy, Dx, callable_form, hist=False):
+    label = f"log_cond_y/{cls}/Rp{Rp}/N{N}/Dy{Dy}Dx{Dx}/call{int(callable_form)}" + ("/hist" if hist else "")
     def fn(m):
         rng = gen.rng_path(m.seed, label)
         fails = []
         c = mk_cond(m, rng, cls, 1, Dy, Dx)
         p = mk_pdf(m, rng, Rp, Dx)
         y = gen.points(rng, N, Dy); yr = m.arr(y)
+        if hist:
+            m.log_cond_y(c.reg, p.reg, yr, callable_form=callable_form); mutate_cond(m, rng, c); mutate_pdf(m, rng, p)
         params = dict(cls=cls, Rp=Rp, N=N, Dy=Dy, Dx=Dx, callable_form=callable_form)
         r_ = m.log_cond_y(c.reg, p.reg, yr, callable_form=callable_form)
         if m.regs.get(r_) is None:
@@ -105,6 +109,9 @@ def cases(seed, tier):
         N = Rq
         out.append(case_log_cond_y(cls, Rq, N, Dy, Dx, bool(i % 2)))
         out.append(case_log_cond_y(cls, 1, max(N, 2), Dy, Dx, bool((i + 1) % 2)))
+    for (cls, Rq, Dy, Dx) in [("full", 2, 2, 3), ("identity", 1, 2, 2), ("diag", 3, 1, 2)]:
+        out.append(case_log_cond(cls, 1, Rq, Dy, Dx, hist=True))
+        out.append(case_log_cond_y(cls, Rq, Rq, Dy, Dx, Rq % 2 == 0, hist=True))
     from . import approx
     out.extend(approx.c14_cases(seed, tier))
     return seeded(out, seed)
